@@ -12,7 +12,7 @@ func init() {
 	register(&propDef{
 		ID: "C02",
 		Info: propInfo{
-			Technique: "who-may-call + path analysis + finite-domain status propagation (lifecycle table) on the type-checked AST",
+			Technique:   "who-may-call + path analysis + finite-domain status propagation (lifecycle table) on the type-checked AST",
 			Explanation: "Decides the in-flight counter protocol structurally: (R02.1) the counter is raised only in the dispatcher path, every call of the dispatcher step is control-dependent on `inflight.Load() < limit.Load()` evaluated in the same loop iteration (a <= or != guard is a violation), and on every path of the step the net number of increments equals the number of hand-offs; (R02.2) it is lowered only in the completion callback, exactly once per invocation and after the worker function (or as the undo of a reservation in the dispatcher path); (R02.3) every value stored into the limit, and into configs.concurrency, comes from a function all of whose returns are provably >= 1 (or from configs.concurrency / a constant >= 1), and TunePool stores before it notifies; (R02.4) from the extracted lifecycle table: the dispatcher goroutine is spawned only by start from status Initiated, and Initiated is stored only after the old signal channel was closed and a fresh one made.",
 			NotDecided:  []string{"a stale dispatcher that is still inside its inner loop when Restart flips the status back to Running", "the peak during concurrent TunePool calls", "anything about the relative timing of the limit store and in-flight jobs"},
 			Assumptions: []string{"runtime.NumCPU() >= 1", "control calls are sequential (the lifecycle table is a sequential semantics)"},
